@@ -111,6 +111,7 @@ func init() {
 			ruleResultOrder(r, "C14.ORD.less", k)
 			ruleTopK(r, "C14.TOPK", k)
 			ruleProvenance(r, "C14.PROV", k)
+			ruleQueryPreprocessed(r, "C14.QUERY", k)
 			ruleFlushRetention(r, "C14.FLUSH", k)
 			ruleVecAtomicAndRevive(r, k)
 			if kn == "ivfpq" {
